@@ -320,12 +320,22 @@ class SSHChannel(Generic[AnyStr], SSHPacketHandler):
                 assert self._session is not None
                 self._session.pause_writing()
 
+    def _get_send_size(self, buflen: int) -> int:
+        """Return how much of the next block of data can be sent now"""
+
+        # pylint: disable=unused-argument
+
+        return min(self._send_window, self._send_pktsize)
+
     def _flush_send_buf(self) -> None:
         """Flush as much data in send buffer as the send window allows"""
 
         while self._send_buf and self._send_window:
-            pktsize = min(self._send_window, self._send_pktsize)
             buf, datatype = self._send_buf[0]
+            pktsize = self._get_send_size(len(buf))
+
+            if not pktsize:
+                break
 
             if len(buf) > pktsize:
                 data = buf[:pktsize]
@@ -2254,6 +2264,11 @@ class SSHTunTapChannel(SSHForwardChannel[bytes]):
 
         super()._accept_data(data, datatype)
 
+    def _get_send_size(self, buflen: int) -> int:
+        """Only send whole packets, waiting for enough window if needed"""
+
+        return buflen if buflen <= self._send_window else 0
+
     def write(self, data: bytes, datatype: DataType = None) -> None:
         """Add address family in outbound packets in TUN mode"""
 
@@ -2261,6 +2276,10 @@ class SSHTunTapChannel(SSHForwardChannel[bytes]):
             version = data[0] >> 4
             family = SSH_TUN_AF_INET if version == 4 else SSH_TUN_AF_INET6
             data = UInt32(family) + data
+
+        # Each packet is sent as a single message, so it has to fit
+        if self._send_state == 'open' and len(data) > self._send_pktsize:
+            raise ValueError('Packet exceeds maximum packet size')
 
         super().write(data, datatype)
 
